@@ -245,12 +245,19 @@ def run(pid, tier, seed):
                 plans.append((kind, "misnamed:" + mis, data, mis))
         if len(plans) > 3 * budget:
             plans = rng.sample(plans, 3 * budget)
-        plans += list(disorder(rng, tier))
+        dis = list(disorder(rng, tier))
+        plans += dis + [(k_, l_ + "+window", d_, f_) for (k_, l_, d_, f_) in dis]
         for kind, label, fdata, fname in plans:
             k = rng.choice([0, 0, 1, 2, 3])
+            if label.endswith("+window"):
+                k = 0      # (the window would cut the neighbours too: these runs are about ending promptly)
             ns = neigh[:k]
             files = {fname: fdata}
             argv = ["--color", "never"]
+            if label.startswith("disorder") and label.endswith("+window"):
+                # a window makes the plain reader binary-search a file that is not sorted
+                argv += rng.choice([["-a", "2023-11-20T00:00:00+00:00"], ["-a", "2023-11-15T03:20:00+00:00", "-b", "2023-11-16T10:20:00+00:00"],
+                                    ["-b", "2023-11-15T10:20:00+00:00"], ["-a", "2030-01-01"], ["-a", "1999-01-01", "-b", "2000-01-01"]])
             order = [fname] + [n[0] for n in ns]
             rng.shuffle(order)
             for n_ in ns:
